@@ -2,8 +2,11 @@
 
 Proof:   coq/theories/Props/C17.v (model Model/TetMesh.v, proofs Proofs/TetMesh*.v,
          checker Checker/TetMesh.v).  The literal tables of the source are re-extracted on
-         every run (harness/tables_c17.py -> Gen/TetTables.v) before the Coq build.
-Tie:     (a) the tables; (b) correspondence: the Gallina model is run on binary64 inside
+         every run (harness/tables_c17.py -> Gen/TetTables.v) before the Coq build; everything
+         else in the 13 functions of _tetra_mesh_creation.py is compared as a whole with the text
+         the model transliterates (harness/tables_pin.py).  A refused source => all theorems
+         reported broken, nothing counted, the stale tables only serve the search.
+Tie:     (a) the tables and the whole-body pins; (b) correspondence: the Gallina model is run on binary64 inside
          coqc on the same arguments and must reproduce the implementation's vertex arrays
          bit for bit and its element / potential arrays exactly for EVERY factory (cube, box,
          cylinder classes, sphere, ellipsoid, capsule; the cos/sin values of the rim / cap
